@@ -322,6 +322,7 @@ func TestC20Msgs(t *testing.T) {
 		g := &c20g{t: t}
 		g.v = NewVestWorld([]VType{{Name: "vt0", Free18: "50000000000000000", LockupNs: secNs, VestNs: dayNs}, {Name: "gone", Free18: "0"}})
 		v := g.v
+		v.Tx = DrawTxMode(t)
 		g.owner = KeyAcc(1).Addr
 		g.vacc = v.NextFresh()
 		nowS := nsTime(v.NowNs).Unix()
@@ -418,7 +419,7 @@ func TestC20Msgs(t *testing.T) {
 		if signersPanic != nil {
 			t.Fatalf("GetSigners panicked after ValidateBasic passed: %v\nmessage: %s", signersPanic, desc)
 		}
-		st.Case(vbPassed, map[string]interface{}{"state": stateKind, "msg": desc}, fmt.Sprintf("msg_%T", msg), fmt.Sprintf("vb_passed_%v", vbPassed), fmt.Sprintf("accepted_%v", res.OK()))
+		st.Case(vbPassed, map[string]interface{}{"state": stateKind, "msg": desc}, append(v.TxClasses(), fmt.Sprintf("msg_%T", msg), fmt.Sprintf("vb_passed_%v", vbPassed), fmt.Sprintf("accepted_%v", res.OK()))...)
 	})
 }
 
